@@ -34,16 +34,28 @@ package mapping
 //@   modifies *b, arr(*b)
 //@ func LogarithmicMapping.Encode
 //@   serves C19 C06 C07
+//@   mode ints=bv floats=ieee
 //@   requires b != nil
 //@   ensures append-only: enc.PrefixKept(b) && len(*b) == old(len(*b)) + 17
+//@   ensures kind: (*b)[old(len(*b))] == enc.FlagIndexMappingBaseLogarithmic.byte
+//@   ensures base: enc.HoldsF64(b, old(len(*b)) + 1, m.gamma)
+//@   ensures offset: enc.HoldsF64(b, old(len(*b)) + 9, m.indexOffset)
 //@   modifies *b, arr(*b)
 //@ func LinearlyInterpolatedMapping.Encode
 //@   serves C19 C06 C07
+//@   mode ints=bv floats=ieee
 //@   requires b != nil
 //@   ensures append-only: enc.PrefixKept(b) && len(*b) == old(len(*b)) + 17
+//@   ensures kind: (*b)[old(len(*b))] == enc.FlagIndexMappingBaseLinear.byte
+//@   ensures base: enc.HoldsF64(b, old(len(*b)) + 1, m.gamma)
+//@   ensures offset: enc.HoldsF64(b, old(len(*b)) + 9, m.indexOffset)
 //@   modifies *b, arr(*b)
 //@ func CubicallyInterpolatedMapping.Encode
 //@   serves C19 C06 C07
+//@   mode ints=bv floats=ieee
 //@   requires b != nil
 //@   ensures append-only: enc.PrefixKept(b) && len(*b) == old(len(*b)) + 17
+//@   ensures kind: (*b)[old(len(*b))] == enc.FlagIndexMappingBaseCubic.byte
+//@   ensures base: enc.HoldsF64(b, old(len(*b)) + 1, m.gamma)
+//@   ensures offset: enc.HoldsF64(b, old(len(*b)) + 9, m.indexOffset)
 //@   modifies *b, arr(*b)
